@@ -1,8 +1,11 @@
 (* C11 — key placement is a pure, order-independent, minimally disruptive function.
    Gen.Rendezvous (get_node, add_node, remove_node) and Gen.Murmur3 are regenerated from the
-   source on every run.  Nodes are strings (HashClient's "host:port" / socket path). *)
+   source on every run.  Nodes are strings (HashClient's "host:port" / socket path); Model/ServerSpec.v (hand model of
+   normalize_server_spec and _make_client_key, compared with the real functions on every run) says how a server
+   address becomes that string: c11_spelling_* show that the equivalent spellings of an address give the same node name,
+   hence - placement being a function of the node names - the same placement. *)
 From Coq Require Import ZArith List Bool Permutation.
-From PM Require Import Lib.Py Gen.Murmur3 Gen.Rendezvous Spec.Hrw Proofs.C11Proof.
+From PM Require Import Lib.Py Gen.Murmur3 Gen.Rendezvous Spec.Hrw Proofs.C11Proof Proofs.DecimalFacts Model.ServerSpec Proofs.C11Spelling.
 Import ListNotations.
 Open Scope Z_scope.
 
@@ -70,3 +73,31 @@ Proof. vm_compute. reflexivity. Qed.
 (* non-vacuity: a forced tie is resolved to the greatest name by the translated code *)
 Example c11_tie : get_node (hash_function (fun _ => 7)) [DStr [97]; DStr [99]; DStr [98]] (DStr [107]) = Ok (DStr [99]).
 Proof. vm_compute. reflexivity. Qed.
+
+(* ---- equivalent spellings of a server address ---- *)
+(* "host:port" (a string) and (host, port) (a tuple) are the same node, named "host:port" *)
+Theorem c11_spelling_host_port : forall h p, plain_host h -> h <> [117; 110; 105; 120] -> 0 <= p ->
+  normalize_server_spec (DStr (h ++ COLON :: str_of_Z p)) = Ok (DTuple [DStr h; DInt p]) /\
+  node_name (DStr (h ++ COLON :: str_of_Z p)) = node_name (DTuple [DStr h; DInt p]) /\
+  node_name (DTuple [DStr h; DInt p]) = Ok (DStr (h ++ COLON :: str_of_Z p)).
+Proof. exact C11Spelling.host_port_string. Qed.
+Print Assumptions c11_spelling_host_port.
+(* a bare host name means port 11211 *)
+Theorem c11_spelling_default_port : forall h, plain_host h -> h <> [] ->
+  node_name (DStr h) = node_name (DTuple [DStr h; DInt 11211]).
+Proof. exact C11Spelling.bare_host. Qed.
+(* "unix:/path" and "/path" *)
+Theorem c11_spelling_unix : forall path, prefixb [SLASH] path = true ->
+  node_name (DStr (L_unix ++ path)) = node_name (DStr path) /\ node_name (DStr path) = Ok (DStr path).
+Proof. exact C11Spelling.unix_path. Qed.
+(* "[v6]:port" and (v6, port) *)
+Theorem c11_spelling_brackets : forall v6 p, Forall (fun ch => ch <> LBR /\ ch <> RBR) v6 -> v6 <> [] -> 0 <= p ->
+  node_name (DStr (LBR :: v6 ++ RBR :: COLON :: str_of_Z p)) = node_name (DTuple [DStr v6; DInt p]).
+Proof. exact C11Spelling.bracketed. Qed.
+Print Assumptions c11_spelling_brackets.
+Example c11_spelling_ex :
+  node_name (DStr [49; 48; 46; 48; 46; 48; 46; 49; 58; 49; 49; 50; 49; 49]) = Ok (DStr [49; 48; 46; 48; 46; 48; 46; 49; 58; 49; 49; 50; 49; 49]) /\
+  node_name (DStr [49; 48; 46; 48; 46; 48; 46; 49]) = Ok (DStr [49; 48; 46; 48; 46; 48; 46; 49; 58; 49; 49; 50; 49; 49]) /\
+  node_name (DStr [91; 58; 58; 49; 93]) = Ok (DStr [58; 58; 49; 58; 49; 49; 50; 49; 49]) /\
+  plain_host [49; 48; 46; 48; 46; 48; 46; 49].
+Proof. vm_compute. repeat split; try reflexivity; repeat constructor; discriminate. Qed.
